@@ -616,13 +616,51 @@ Fixpoint rets_distinct (d : mdef) {struct d} : bool :=
 
 (* ================================================================================== *)
 (* Part 7: scenarios and observations                                                   *)
-Inductive op := OSetIn (p : list kidref) (k : nat) (x : Z) | OSetOut (p : list kidref) (l : nat) (x : Z) | ORun.
+Inductive op := OSetIn (p : list kidref) (k : nat) (x : Z) | OSetOut (p : list kidref) (l : nat) (x : Z) | ORun
+              | OSetBad (p : list kidref) (k : nat).   (* assign a value that is not an int (a str) *)
+
+(* Would the assignment of a non-int be refused?  DataChannel.value setter, in source order: the channel
+   checks the value against its OWN hint, then hands it to its value_receiver (whose setter does the
+   same, recursively), and only then stores it.  A TypeError anywhere down the chain therefore leaves
+   every channel of the chain as it was.  (Function children have un-hinted inputs; an interface node's
+   input carries the hint of its parameter.) *)
+Fixpoint refuses (s : snode) (k : nat) {struct s} : bool :=
+  match s with
+  | SFn _ _ _ => false
+  | SMac _ ps _ recvs _ _ body _ _ =>
+      match p_hint (nth k ps (mkParam "" None None)) with
+      | Some HInt => true
+      | _ => match nth_error recvs k with
+             | Some (RBody j k') => dispatch (fun s' => refuses s' k') false body j
+             | _ => false
+             end
+      end
+  end.
+
+Fixpoint refuses_at (s : snode) (p : list kidref) (k : nat) {struct s} : bool :=
+  match p with
+  | [] => refuses s k
+  | r :: p' =>
+      match s with
+      | SFn _ _ _ => false
+      | SMac _ ps _ _ kept _ body _ _ =>
+          match r with
+          | KUI i => match p' with
+                     | [] => nth i kept false && Nat.eqb k 0 &&
+                             match p_hint (nth i ps (mkParam "" None None)) with Some HInt => true | _ => false end
+                     | _ => false
+                     end
+          | KBody j => dispatch (fun s' => refuses_at s' p' k) false body j
+          end
+      end
+  end.
 
 Definition apply_op (s : snode) (v : vnode) (o : op) : option (vnode * nat) :=
   match o with
   | OSetIn p k x => Some (set_in_at s v p k (Some x), 0)
   | OSetOut p l x => Some (fst (set_out_at s v p l (Some x)), 0)
   | ORun => match run s v with Some (v', calls, _) => Some (v', calls) | None => None end
+  | OSetBad p k => if refuses_at s p k then Some (v, 0) else None   (* refused: nothing changes; accepted: not modelled *)
   end.
 
 Fixpoint apply_ops (s : snode) (v : vnode) (ops : list op) : option vnode :=
@@ -718,8 +756,12 @@ Fixpoint osteps (s : snode) (v : vnode) (ops : list op) : list obs :=
   | o :: r =>
       match apply_op s v o with
       | Some (v', calls) =>
-          (match o with ORun => OL [OS "ok"; on calls; odyn s v'] | _ => odyn s v' end) :: osteps s v' r
-      | None => [OL [OS "fail"]]
+          (match o with
+           | ORun => OL [OS "ok"; on calls; odyn s v']
+           | OSetBad _ _ => OL [OS "TypeError"; odyn s v']
+           | _ => odyn s v'
+           end) :: osteps s v' r
+      | None => [OL [OS (match o with OSetBad _ _ => "accepted" | _ => "fail" end)]]
       end
   end.
 
